@@ -149,7 +149,7 @@ func init() {
 			"distinct = hash(config, ops); non-trivial = >=2 commits and >=1 proof verified on a version with inherited nodes or after prune/reopen.",
 		Assumptions: []string{"the ics23 verifier (github.com/cosmos/ics23/go v0.11.0) and IavlSpec are trusted", "ics23 cannot verify leaves with an empty value: those proofs are checked for kind/content only and counted as skipped"},
 		Run: func(c *fw.Ctx) {
-			w := map[string]int{"set": 40, "rm": 14, "save": 22, "rollback": 2, "reopen": 5, "load": 2, "delto": 6, "lfo": 2, "delfrom": 1}
+			w := map[string]int{"set": 40, "rm": 14, "save": 22, "rollback": 2, "reopen": 5, "load": 2, "delto": 6, "lfo": 2, "delfrom": 1, "redo": 3}
 			p := &v1x.GenParams{MinOps: 10, MaxOps: 45, W: w, MaxKeys: 10, InvalidPct: 2,
 				Backends: []string{"mem"}, Initials: []int64{0, 0, 0, 1, 5, 63, 64, 127, 128, 8191, 8192, 1000000}}
 			if c.Tier == "thorough" {
